@@ -251,7 +251,7 @@ func writeJSONString(sb *strings.Builder, s string) {
 			sb.WriteString(`\t`)
 		case r == '\r':
 			sb.WriteString(`\r`)
-		case r < 0x20 || r == 0x7f || r == 0x85 || r == 0xa0 || r == 0x2028 || r == 0x2029 || r == 0xfeff:
+		case r < 0x20 || (r >= 0x7f && r <= 0xa0) || r == 0x2028 || r == 0x2029 || r == 0xfeff || r == 0xfffe || r == 0xffff:
 			fmt.Fprintf(sb, `\u%04x`, r)
 		default:
 			sb.WriteString(s[i : i+n])
